@@ -1,6 +1,7 @@
 CONSTANTS
   MaxOps = 4
   Variant = "genh"
+  Record = FALSE
   RuleBug = "none"
 SPECIFICATION Spec
 INVARIANTS TypeOK C02 C03 C09 C08
